@@ -222,7 +222,9 @@ impl<'a> SimReader<'a> {
     }
     fn next_chunk_end(&self) -> usize {
         // first cut strictly greater than pos, else end
-        match self.plan.cuts.iter().find(|c| **c > self.pos) {
+        // cuts are sorted: binary search keeps large inputs with dense cuts linear overall
+        let i = self.plan.cuts.partition_point(|c| *c <= self.pos);
+        match self.plan.cuts.get(i) {
             Some(c) => (*c).min(self.end),
             None => self.end,
         }
